@@ -116,20 +116,42 @@ func checkErrChecked(r *Reporter, p *Prog, rule string, sc errScope) {
 								continue
 							}
 						}
-						w, bad := f.reach(Point{b, i + 1}, &searchOpts{AvoidNode: func(c ast.Node) bool { return isErrCheck(info, c, v, named) }},
-							func(pt Point, atExit bool) bool {
-								if atExit {
-									return true
+						// where the search starts: after the assignment - or, when the callee is a helper
+						// spliced into this graph, at each of its returns that can hand back a non-nil error
+						// (a return of the literal nil needs no check; the result correlation of the splice
+						// keeps the continuations of the different returns apart)
+						starts := []Point{{b, i + 1}}
+						if reg := f.regionByCall(call); reg != nil && len(reg.rets) > 0 {
+							starts = nil
+							for _, rt := range reg.rets {
+								if len(rt.results) == 0 || isNil(info, rt.results[len(rt.results)-1]) {
+									continue
 								}
-								if as, ok := f.nodeAt(pt).(*ast.AssignStmt); ok && as != st {
-									for _, l := range as.Lhs {
-										if objOfIdent(info, l) == v && !mentionsObj(info, as.Rhs, v) {
-											return true // overwritten unchecked
+								starts = append(starts, rt.pt)
+							}
+						}
+						var w []string
+						bad := false
+						for _, from := range starts {
+							w2, bad2 := f.reach(from, &searchOpts{AvoidNode: func(c ast.Node) bool { return isErrCheck(info, c, v, named) }},
+								func(pt Point, atExit bool) bool {
+									if atExit {
+										return true
+									}
+									if as, ok := f.nodeAt(pt).(*ast.AssignStmt); ok && as != st {
+										for _, l := range as.Lhs {
+											if objOfIdent(info, l) == v && !mentionsObj(info, as.Rhs, v) {
+												return true // overwritten unchecked
+											}
 										}
 									}
-								}
-								return false
-							})
+									return false
+								})
+							if bad2 {
+								w, bad = w2, true
+								break
+							}
+						}
 						if bad {
 							r.Fail(rule, key, p.posStr(call.Pos()), fmt.Sprintf("error variable %q can reach an exit or be overwritten without being compared to nil, returned or classified", id.Name), w...)
 						} else {
